@@ -36,7 +36,7 @@ if [ "$TIER" = "thorough" ]; then
   mkdir -p "$WORK/corpus"
   cp -r "$HERE/seeds/$TARGET/." "$WORK/corpus/" 2>/dev/null
   "$BIN" "$WORK/corpus" -fork=$NPROC -ignore_crashes=0 -max_total_time="$BUDGET" -seed=$((SEED+1)) -len_control=0 -max_len=$MAXLEN \
-      -rss_limit_mb=4096 -timeout=60 -artifact_prefix="$WORK/artifacts/" -print_final_stats=1 >"$WORK/log.0" 2>&1
+      -rss_limit_mb=4096 -timeout=300 -artifact_prefix="$WORK/artifacts/" -print_final_stats=1 >"$WORK/log.0" 2>&1
   status=$?
   NLOGS=1
 else
@@ -46,7 +46,7 @@ else
     # even processes start from the committed seeds, odd ones from an empty corpus
     if [ $((i % 2)) -eq 0 ]; then cp -r "$HERE/seeds/$TARGET/." "$WORK/corpus.$i/" 2>/dev/null; fi
     "$BIN" "$WORK/corpus.$i" -runs=$RUNS -seed=$((SEED*16+i+1)) -len_control=0 -max_len=$MAXLEN \
-        -rss_limit_mb=4096 -timeout=60 -artifact_prefix="$WORK/artifacts/" -print_final_stats=1 >"$WORK/log.$i" 2>&1 &
+        -rss_limit_mb=4096 -timeout=300 -artifact_prefix="$WORK/artifacts/" -print_final_stats=1 >"$WORK/log.$i" 2>&1 &
     pids+=($!)
   done
   for p in "${pids[@]}"; do wait "$p" || status=$?; done
